@@ -130,7 +130,13 @@ def h_inverse(ctx, insts, sym, vals=None, den=1):
         params = ()
         if name in ("P", "P1"):
             if slot not in slots:
-                k = tplan.num(ctx, f"k{slot}", sym.get(f"k{slot}"), vals.get(f"k{slot}", 2 + int(slot)))
+                spec = sym.get(f"k{slot}")
+                if spec is not None and any(n == "P1" and sl == slot for n, sl in insts):
+                    # k + 1 over a symbolic constant makes TypeChecker.walk_plus compare a symbolic bound with float("inf")
+                    # (floating-point theory, solver time-outs): P1's parameter value is a structural choice instead
+                    k = spec[0] + ctx.choice(f"k{slot}", spec[1] - spec[0] + 1)
+                else:
+                    k = tplan.num(ctx, f"k{slot}", spec, vals.get(f"k{slot}", 2 + int(slot)))
                 for _o, ko in slots.values():
                     ctx.assume(k != ko)
                 slots[slot] = (em.Int(k), k)
@@ -235,7 +241,7 @@ def shards(tier, seed):
     sh("F-F-I", [F, F, I])
     sh("P0-P0", [P0, P0])
     sh("P0-P1-P0", [P0, P1_, P0])
-    sh("Q0-Q0-Q1", [Q0, Q0, Q1])
+    sh("Q0-Q0-Q1", [Q0, Q0, Q1], sym=dict(s0=SW, s1=SW, s2=SW, k0=[1, 3], k1=[1, 3]))
     sh("V-V", [V, V])
     sh("V-W", [V, W])
     sh("W-W", [W, W])
@@ -255,7 +261,7 @@ def shards(tier, seed):
         sh("V-W-V", [V, W, V])
         sh("F-F-F-symkd", [F, F, F], sym=dict(kd=[1, 8], s0=SW, s1=SW, s2=SW))
         sh("F-W-V-symkd", [F, W, V], sym=dict(kd=[1, 8], s0=SW, s1=SW, s2=SW, d1=DW, d2=DW))
-        sh("Q0-P1-W", [Q0, P1_, W])
+        sh("Q0-P1-W", [Q0, P1_, W], sym=dict(s0=SW, s1=SW, s2=SW, d2=DW, k0=[1, 4], k1=KW))
     return out
 
 
